@@ -34,9 +34,9 @@ def Scalar : Value → Bool
   | .map _ _ => false
   | _ => true
 
-theorem showFloat_format (f : F64) (s : Bytes) (h : Spec.Eval.showFloat f = .val s) : F64.format f = s := by
+theorem showFloat_format (f : F64) (s : Bytes) (h : Spec.Eval.showFloat f = .val s) : F64.formatJS f = s := by
   unfold Spec.Eval.showFloat at h
-  unfold F64.format
+  unfold F64.formatJS
   split at h
   · simp at h
   · rename_i hc
@@ -49,7 +49,7 @@ theorem showFloat_format (f : F64) (s : Bytes) (h : Spec.Eval.showFloat f = .val
     split at h
     · simp at h
     · rename_i hw
-      have hw' : ¬ (((F64.natDigits c).length : Int) + k - 1 < -4 ∨ 6 ≤ ((F64.natDigits c).length : Int) + k - 1) := by omega
+      have hw' : ¬ (((F64.natDigits c).length : Int) + k - 1 < -6 ∨ 21 ≤ ((F64.natDigits c).length : Int) + k - 1) := by omega
       simp only [Bool.or_eq_true, decide_eq_true_eq, hw', if_false]
       simp only [Spec.Eval.Out.val.injEq] at h
       rw [← h]
